@@ -389,3 +389,29 @@ def em7(model):
         r.undec(f.node, 'recovery branch of expand_math_section not recognised')
         r.instances = 1
     return r
+
+
+# ----------------------------------------------------------------------------- UK7
+def uk7(model):
+    r = RuleResult('UK7', 'only names are listed as unknown: the environment name read behind \\begin can '
+                   'be empty (\\begin at the end of the text, \\begin{}); it is recorded only if it is '
+                   'not', floor=1)
+    f = model.func('parser.Parser.begin_environment')
+    apps = [n for n in iter_scope(f.node) if isinstance(n, ast.Call) and T.call_name(n) == 'append'
+            and unparse(n.func.value).endswith('unknowns') and n.args]
+    if not apps:
+        r.undec(f.node, 'recording of unknown environments not found')
+        r.instances = 1
+        return r
+    for a in apps:
+        v = unparse(a.args[0])
+        ok = guards.has_fact(a, lambda e, t: (t and unparse(e) == v) or (
+            not t and isinstance(e, ast.UnaryOp) and unparse(e.operand) == v) or (
+            isinstance(e, ast.Compare) and unparse(e.left) == v and T.is_const(e.comparators[0], '')
+            and isinstance(e.ops[0], (ast.NotEq, ast.Eq)) and isinstance(e.ops[0], ast.NotEq) == t))
+        if ok:
+            r.ok(a, 'the environment name is recorded only if it is not empty', nontrivial=True)
+        else:
+            r.fail(a, 'an empty environment name is recorded as unknown: the list of unknown names gets an '
+                   'empty line', witness='a text that ends with \\begin, or contains \\begin{}; --unkn')
+    return r
